@@ -215,6 +215,20 @@ def drive_c19(tier, seed, cfg):
                             out_v.append(("unexpected-exit-status", dict(rc=rc, allsched=exp["allsched"], stderr=se[-200:], channel=ch, fmt=fmt), rp))
                         if rc != 0 and so and not any(v[0] == "stdout-not-empty-on-failure" for v in out_v):
                             out_v.append(("stdout-not-empty-on-failure", dict(rc=rc, stdout=so[:100]), rp))
+        # the same bytes under file names without the .tjp suffix: stdout must be byte-identical (seeded change C19-b)
+        for alias in ("copy.txt", "copy_noext", "copy.tjp.bak"):
+            data = full.encode("utf-8")
+            with open(os.path.join(cwd, alias), "wb") as f:
+                f.write(data)
+            for fmt in ("json", "csv"):
+                rc, so, se = run_plan(["--quiet", "report"] + (["--csv"] if fmt == "csv" else []) + [alias], cwd, tmp, None)
+                loc["invocations"] += 1
+                ref0 = got.get(("own", fmt, "file", 0))
+                if ref0 and (rc, so) != ref0:
+                    out_v.append(("output-depends-on-file-name", dict(alias=alias, fmt=fmt, rc=rc, stdout=so[:160], with_tjp_name=(ref0[0], ref0[1][:160])),
+                                  dict(property="C19", text=full, args=["report", alias], fmt=fmt, stdout=so[:600].decode("utf-8", "replace"))))
+            if alias != "copy.txt" and i % 3:
+                break
         # file == stdin, repeated runs identical, own reports do not change the rows
         for vname, _ in variants:
             for fmt in ("json", "csv"):
